@@ -157,17 +157,18 @@ def selection_level(ctx, rep):
     for t in range(ctx.n(1500, 15000)):
         hof = HallOfFame(rng.randrange(1, 5))
         offered = None
+        emb = rng.choice(["halves", "halves", "large, close", "tiny", "adjacent doubles"])
         for u in range(rng.randrange(1, 5)):
-            pop = mkpop(rng, rng.randrange(1, 6), nan_prob=rng.choice([0.1, 0.5, 0.9]))
+            pop = mkpop(rng, rng.randrange(1, 6), nan_prob=rng.choice([0.1, 0.5, 0.9]), embedding=emb)
             hof.update(pop)
             b = best([c.key for c in pop])
             if b is not None:
                 offered = b if offered is None else min(offered, b)
             rep.count("selection_level", "hall-of-fame update")
             if offered is not None:
-                top = hof[0].fitness if len(hof) else None
-                if top is None or top != top or top > key_of(offered):
-                    rep.violate(f"hall of fame best {top} is worse than the best individual offered so far ({key_of(offered)})", "C09:hof-worse",
+                top = hof[0].key if len(hof) else None          # copies keep the integer key the fitness value is the image of
+                if top is None or top == "nan" or top > offered:
+                    rep.violate(f"hall of fame best key {top} is worse than the best individual offered so far (key {offered})", "C09:hof-worse",
                                 {"update": u, "population": [c.key for c in pop]})
                     break
         rep.case(("hof", t), True)
